@@ -64,9 +64,9 @@ pub fn run(ctx: &mut Ctx) {
     ctx.mark_exhaustive("field-sweep", "every field of every specified shape of the 21 layouts x {inverted whole, each single bit inverted} x {all-zero, all-one background}");
 
     // (ii) random joint assignments
-    let n = ctx.tier.pick(40_000, 2_000_000);
+    let n = ctx.tier.pick(200_000, 2_000_000);
     ctx.run_proptest("random-assignments", &STD, n, payload_inputs(SUPPORTED.to_vec(), LenMode::Standard, Prop::C04, 8, 0.10), check);
-    let n = ctx.tier.pick(10_000, 400_000);
+    let n = ctx.tier.pick(60_000, 400_000);
     ctx.run_proptest("random-assignments-any-length", &STD, n, payload_inputs(SUPPORTED.to_vec(), LenMode::Any, Prop::C04, 5, 0.10), check);
     for cfg in configs().into_iter().skip(1) {
         ctx.run_proptest("random-assignments", cfg, n / 2, payload_inputs(SUPPORTED.to_vec(), LenMode::Standard, Prop::C04, 8, 0.10), check);
